@@ -7,11 +7,15 @@ prop, name, tree, needs = sys.argv[1:5]
 V = os.path.dirname(os.path.dirname(os.path.abspath(__file__)))
 dst = os.path.join(V, "seeded", f"{prop}-{name}")
 os.makedirs(dst, exist_ok=True)
-patch = subprocess.run(["git", "-C", tree, "diff", "--", "xgi"], capture_output=True, text=True).stdout
+sub = os.path.join(tree, "_seed") if os.path.isdir(os.path.join(tree, "_seed")) else tree
+if os.path.exists(os.path.join(sub, "patch.diff")):
+    patch = open(os.path.join(sub, "patch.diff")).read()
+else:
+    patch = subprocess.run(["git", "-C", tree, "diff", "--", "xgi"], capture_output=True, text=True).stdout
 open(os.path.join(dst, "patch.diff"), "w").write(patch)
-shutil.copy(os.path.join(tree, "_seed", "demo.py"), os.path.join(dst, "demo.py"))
-if os.path.exists(os.path.join(tree, "_seed", "notes.md")):
-    shutil.copy(os.path.join(tree, "_seed", "notes.md"), os.path.join(dst, "notes.md"))
+shutil.copy(os.path.join(sub, "demo.py"), os.path.join(dst, "demo.py"))
+if os.path.exists(os.path.join(sub, "notes.md")):
+    shutil.copy(os.path.join(sub, "notes.md"), os.path.join(dst, "notes.md"))
 # evaluate on a fresh worktree of /repo's current HEAD with only the patch applied
 fresh = f"/tmp/seedeval_{prop}_{os.getpid()}"
 subprocess.run(["git", "-C", "/repo", "worktree", "add", "-q", fresh, "HEAD"], check=True)
